@@ -302,13 +302,18 @@ def context_multi(i1: int, j1: int, i2: int, j2: int, v0: int, v1: int, v2: int,
         _model_set(model, p1, v0)
         qc.set({key1: v0}, config=cfg)
     trial = copy.deepcopy(model)
-    if not (_model_set(trial, p1, v1) and _model_set(trial, p2, v2) and _model_set(trial, p1, v3)):
+    ok = _model_set(trial, p1, v1) and _model_set(trial, p2, v2)
+    if ok and form >= 2:                               # the keyword form writes the first key again
+        ok = _model_set(trial, p1, v3)
+    if not ok:
         return True                                    # a write through a scalar must raise: covered by seq2
     before = copy.deepcopy(cfg)
     kw = {"__".join(p1): v3} if form >= 2 else {}
     with qc.set({key1: v1, key2: v2}, config=cfg, **kw):
-        if qc.get(key2, config=cfg) != _model_get(trial, p2) or qc.get(key1, config=cfg) != _model_get(trial, p1):
-            if not (p1 == p2 or p1[:len(p2)] == p2 or p2[:len(p1)] == p1):
+        # inside the block both entries read back as written, unless one path is a prefix of the
+        # other (then one write replaces the other's container: only the restore is claimed)
+        if not (p1 == p2 or p1[:len(p2)] == p2 or p2[:len(p1)] == p1):
+            if qc.get(key2, config=cfg) != _model_get(trial, p2) or qc.get(key1, config=cfg) != _model_get(trial, p1):
                 return False
     return cfg == before
 
